@@ -18,3 +18,14 @@ def pmap(func, items, procs=None, chunksize=None):
     ctx = mp.get_context("fork")
     with ctx.Pool(procs) as pool:
         return pool.map(_call, items, chunksize or max(1, len(items) // (procs * 4)))
+
+
+def pmap_isolated(func, items, procs=None):
+    """every item in its own forked process (state changes of one item cannot reach another)"""
+    global _FUNC
+    items = list(items)
+    procs = procs or min(16, os.cpu_count() or 4)
+    _FUNC = func
+    ctx = mp.get_context("fork")
+    with ctx.Pool(procs, maxtasksperchild=1) as pool:
+        return pool.map(_call, items, 1)
